@@ -107,9 +107,9 @@ func runE6(p *Prog, r *Report) {
 		e6StaleLen(p, r, fn)
 		e6LoopCarried(p, r, fn)
 	}
-	r.ExpectMin("E6.pos-literals", nPos, 12)
-	r.ExpectMin("E6.range-literals", nRng, 35)
-	r.ExpectMin("E6.endpoint-assignments", nAsg, 8)
+	r.ExpectMin("E6.pos-literals", nPos, 10)
+	r.ExpectMin("E6.range-literals", nRng, 30)
+	r.ExpectMin("E6.endpoint-assignments", nAsg, 7)
 	r.Clauses = append(r.Clauses,
 		"E6 every hcl.Pos literal takes Line, Column and Byte from one base position with Line unchanged and Column and Byte shifted by the same term, and that term is a constant (a single-byte delimiter), never a byte length",
 		"E6 no integer constant flows into a Line/Column/Byte component; components are never assigned one at a time",
